@@ -14,7 +14,7 @@ use std::{
     task::{Context, Poll},
 };
 
-use actix_service::Service;
+use actix_service::{Service, ServiceFactory};
 use actix_tls::connect::{
     openssl as conn_openssl, rustls_0_23 as conn_rustls, ConnectError, ConnectInfo, Connection, Connector, Resolve, Resolver, tcp::TcpConnector,
 };
@@ -111,6 +111,9 @@ pub struct CConfig {
     #[serde(default)]
     pub port_rank: Vec<u8>,
     pub local_addr: bool,
+    /// obtain the services through their factories' `new_service` instead of `.service()`
+    #[serde(default)]
+    pub via_factory: bool,
     // tls part
     pub openssl: bool,
     pub cert: Cert,
@@ -137,6 +140,7 @@ pub fn gen(rng: &mut Rng) -> CConfig {
         set_port_alt: rng.chance(1, 2),
         port_rank: (0..n).map(|_| rng.below(200) as u8).collect(),
         local_addr: rng.chance(1, 5),
+        via_factory: rng.chance(1, 3),
         openssl: rng.chance(1, 2),
         cert: rng.pick(&[Cert::Good, Cert::Good, Cert::OtherName, Cert::RogueCa, Cert::IpOnly]).clone(),
         tls_host: rng.pick(&[TlsHost::Good, TlsHost::Good, TlsHost::GoodWithPort, TlsHost::Other, TlsHost::Invalid, TlsHost::Ip]).clone(),
@@ -373,7 +377,13 @@ async fn run_tcp(cfg: &CConfig, ctx: &mut RunCtx) -> Option<Violation> {
     }
     let got: Got = match cfg.entry {
         Entry::Connector => {
-            let svc = Connector::new(resolver).service();
+            let fac = Connector::new(resolver);
+            let svc = if cfg.via_factory {
+                ctx.bump("probe.service_from_factory");
+                <Connector as ServiceFactory<ConnectInfo<String>>>::new_service(&fac, ()).await.expect("factory")
+            } else {
+                fac.service()
+            };
             match svc.call(req).await {
                 Ok(c) => {
                     let (io, _) = c.into_parts();
@@ -389,7 +399,12 @@ async fn run_tcp(cfg: &CConfig, ctx: &mut RunCtx) -> Option<Violation> {
             }
         }
         Entry::TcpOnly => {
-            let svc = TcpConnector::default().service();
+            let fac = TcpConnector::default();
+            let svc = if cfg.via_factory {
+                <TcpConnector as ServiceFactory<ConnectInfo<String>>>::new_service(&fac, ()).await.expect("factory")
+            } else {
+                fac.service()
+            };
             match svc.call(req).await {
                 Ok(c) => {
                     let (io, _) = c.into_parts();
@@ -402,7 +417,11 @@ async fn run_tcp(cfg: &CConfig, ctx: &mut RunCtx) -> Option<Violation> {
             }
         }
         Entry::ResolverOnly => {
-            let svc = resolver.service();
+            let svc = if cfg.via_factory {
+                <Resolver as ServiceFactory<ConnectInfo<String>>>::new_service(&resolver, ()).await.expect("factory")
+            } else {
+                resolver.service()
+            };
             match svc.call(req).await {
                 Ok(info) => Got::Resolved(info.addrs().collect()),
                 Err(e) => Got::Err(e),
@@ -475,8 +494,21 @@ async fn run_tcp(cfg: &CConfig, ctx: &mut RunCtx) -> Option<Violation> {
         (Expect::Unresolved, Got::Err(ConnectError::Unresolved)) => ctx.bump("probe.unresolved"),
         (Expect::IoRefused, Got::Err(ConnectError::Io(e))) => {
             ctx.bump("probe.all_refused");
-            if e.kind() != std::io::ErrorKind::ConnectionRefused && !cfg.local_addr {
-                return fail("wrong-io-error", format!("all addresses refuse but the error is {:?}", e.kind()));
+            // "failing with the last I/O error": a closed port refuses; an IPv6 address cannot be
+            // dialled from a socket bound to the IPv4 local address (some other error)
+            let last_refuses = dial_list.as_ref().ok().and_then(|l| l.last()).map_or(true, |a| !(cfg.local_addr && a.is_ipv6()));
+            let refused = e.kind() == std::io::ErrorKind::ConnectionRefused;
+            if refused != last_refuses {
+                return fail(
+                    "wrong-io-error",
+                    format!("all addresses fail; the last one in dial order {} a plain refusal but the error returned is {:?}", if last_refuses { "is" } else { "is not" }, e.kind()),
+                );
+            }
+            if let Ok(l) = &dial_list {
+                let kinds: Vec<bool> = l.iter().map(|a| !(cfg.local_addr && a.is_ipv6())).collect();
+                if kinds.iter().any(|k| *k) && kinds.iter().any(|k| !*k) {
+                    ctx.bump("probe.all_fail_with_different_errors");
+                }
             }
             for (a, n) in &accepted {
                 if *n != 0 {
@@ -581,11 +613,21 @@ async fn run_tls(cfg: &CConfig, ch: &mut Chooser<Action>, ctx: &mut RunCtx) -> O
         use openssl::{ssl::{SslConnector, SslMethod}, x509::X509};
         let mut b = SslConnector::builder(SslMethod::tls()).unwrap();
         b.cert_store_mut().add_cert(X509::from_der(&pk.ca_der).unwrap()).unwrap();
-        let svc = conn_openssl::TlsConnector::service(b.build());
+        let svc = if cfg.via_factory {
+            let fac = conn_openssl::TlsConnector::new(b.build());
+            crate::futures_now(<conn_openssl::TlsConnector as ServiceFactory<Connection<String, Half>>>::new_service(&fac, ())).expect("factory")
+        } else {
+            conn_openssl::TlsConnector::service(b.build())
+        };
         let f = <conn_openssl::TlsConnectorService as Service<Connection<String, Half>>>::call(&svc, conn);
         Box::pin(MapConn { f: Box::pin(f), conv: |c| { let (io, _) = c.into_parts(); Box::pin(io) as Pin<Box<dyn Rw>> } })
     } else {
-        let svc = conn_rustls::TlsConnector::service(crate::client_config(cfg.tls12));
+        let svc = if cfg.via_factory {
+            let fac = conn_rustls::TlsConnector::new(crate::client_config(cfg.tls12));
+            crate::futures_now(<conn_rustls::TlsConnector as ServiceFactory<Connection<String, Half>>>::new_service(&fac, ())).expect("factory")
+        } else {
+            conn_rustls::TlsConnector::service(crate::client_config(cfg.tls12))
+        };
         let f = <conn_rustls::TlsConnectorService as Service<Connection<String, Half>>>::call(&svc, conn);
         Box::pin(MapConn { f: Box::pin(f), conv: |c| { let (io, _) = c.into_parts(); Box::pin(io) as Pin<Box<dyn Rw>> } })
     });
@@ -791,7 +833,7 @@ fn crate_payload(seed: u64, len: usize, salt: u64) -> Vec<u8> {
 
 pub fn describe() -> Describe {
     Describe {
-        rule: "TCP part: address lists of length 0..4 whose entries are independently a live loopback listener or a reserved closed port (IPv4 and IPv6), host strings with/without port, IP literals, non-numeric port text, pre-set One/Multi addresses or with_addr, set_port (equal to or different from the port in the host string: the host's port wins), the numeric order of the slots' ports follows a seeded rank (so that the dial order of a list is never accidentally its sorted order), optional local bind address, default resolver (localhost) or scripted resolver returning list / empty / error after 0..2 Pending polls, entered through Connector, TcpConnector alone or Resolver alone; outcome, dialled address, accept counters of every listener and the resolver call log are compared with a precedence model. TLS part: rustls 0.23 and OpenSSL connector services over the in-memory duplex against a hand-driven rustls server holding a certificate that covers / does not cover the requested host, is issued by an untrusted CA or lists only an IP, for host strings incl. host:port, another name, an invalid name and an IP literal; seeded delivery chunking; payload round trip after success. non-trivial = every run; distinct = distinct event-trace hash".into(),
+        rule: "TCP part: address lists of length 0..4 whose entries are independently a live loopback listener or a reserved closed port (IPv4 and IPv6), host strings with/without port, IP literals, non-numeric port text, pre-set One/Multi addresses or with_addr, set_port (equal to or different from the port in the host string: the host's port wins), the numeric order of the slots' ports follows a seeded rank (so that the dial order of a list is never accidentally its sorted order), optional local bind address, default resolver (localhost) or scripted resolver returning list / empty / error after 0..2 Pending polls, entered through Connector, TcpConnector alone or Resolver alone, each obtained by `.service()` or through its ServiceFactory (also the TLS connectors); when all addresses fail the error is that of the last one in dial order; outcome, dialled address, accept counters of every listener and the resolver call log are compared with a precedence model. TLS part: rustls 0.23 and OpenSSL connector services over the in-memory duplex against a hand-driven rustls server holding a certificate that covers / does not cover the requested host, is issued by an untrusted CA or lists only an IP, for host strings incl. host:port, another name, an invalid name and an IP literal; seeded delivery chunking; payload round trip after success. non-trivial = every run; distinct = distinct event-trace hash".into(),
         real: vec!["actix_tls::connect::{Connector, ConnectorService, Resolver, ResolverService, TcpConnector, TcpConnectorService, ConnectInfo, Connection, Host}", "actix_tls::connect::{rustls_0_23, openssl}::TlsConnectorService", "kernel loopback TCP, tokio I/O driver", "rustls 0.23 / OpenSSL certificate verification"],
         stub: vec!["DNS: scripted Resolve implementation (default resolver only for localhost)", "TLS server: hand-driven rustls::ServerConnection", "wire for the TLS part: in-memory duplex"],
         assumptions: vec!["connect timing (slow SYN, half-open) cannot be simulated on kernel loopback and is not part of C19", "rustls 0.20-0.22 and native-tls connectors are not exercised"],
@@ -799,5 +841,5 @@ pub fn describe() -> Describe {
 }
 
 pub fn required_probes() -> Vec<&'static str> {
-    vec!["probe.connected", "probe.fallback_to_later_address", "probe.no_records", "probe.resolver_error", "probe.unresolved", "probe.all_refused", "probe.resolver_consulted", "probe.tls_connected", "probe.tls_rejected", "probe.tls_payload_roundtrip", "probe.host_port_beats_set_port", "probe.unsorted_list_with_two_live"]
+    vec!["probe.connected", "probe.fallback_to_later_address", "probe.no_records", "probe.resolver_error", "probe.unresolved", "probe.all_refused", "probe.resolver_consulted", "probe.tls_connected", "probe.tls_rejected", "probe.tls_payload_roundtrip", "probe.host_port_beats_set_port", "probe.unsorted_list_with_two_live", "probe.service_from_factory", "probe.all_fail_with_different_errors"]
 }
